@@ -14,76 +14,7 @@
 #include "trace_kernel.hpp"
 #include <algorithm>
 
-template <class Tree>
-std::string dump(const Tree& tree){
-    std::string s = "H=" + std::to_string(tree.getHeight());
-    for(long l = 0 ; l < tree.getHeight() ; ++l){
-        s += " | L" + std::to_string(l) + ":";
-        for(const auto& g : tree.getCellGroupsAtLevel(l)){
-            s += " [" + std::to_string(g.getStartingSpacialIndex()) + " " + std::to_string(g.getEndingSpacialIndex()) + " " + std::to_string(g.getNbCells()) + ":";
-            for(long k = 0 ; k < g.getNbCells() ; ++k) s += " " + std::to_string(g.getCellSpacialIndex(k));
-            s += "]";
-        }
-    }
-    s += " | P:";
-    for(const auto& g : tree.getParticleGroups()){
-        s += " [" + std::to_string(g.getStartingSpacialIndex()) + " " + std::to_string(g.getEndingSpacialIndex()) + " " + std::to_string(g.getNbLeaves()) + " " + std::to_string(g.getNbParticles()) + ":";
-        for(long k = 0 ; k < g.getNbLeaves() ; ++k){
-            const auto& h = g.getLeafSymbData(k);
-            s += " (" + std::to_string(h.spaceIndex) + " " + std::to_string(h.nbParticles) + " " + std::to_string(h.offSet) + ":";
-            std::vector<long> parts(g.getParticleIndexes(k), g.getParticleIndexes(k) + h.nbParticles);
-            std::sort(parts.begin(), parts.end());
-            for(long p : parts) s += " " + std::to_string(p);
-            s += ")";
-        }
-        s += "]";
-    }
-    return s;
-}
-
-template <class Tree>
-void tag_cells(Tree& tree){
-    tree.applyToAllCells([](long level, auto&& h, auto&& m, auto&& l){
-        if(m){ m->get().tagLevel1 = level + 1; m->get().tagIndex = h.spaceIndex; }
-        if(l){ l->get().tagLevel1 = level + 1; l->get().tagIndex = h.spaceIndex; }
-    });
-}
-
-template <class Tree>
-std::string values(Tree& tree){
-    std::vector<std::pair<long, unsigned long>> r;
-    tree.applyToAllLeaves([&](auto&& h, const long* idx, auto&&, auto&& rhs){
-        for(long p = 0 ; p < h.nbParticles ; ++p) r.push_back({idx[p], rhs[0][p]});
-    });
-    std::sort(r.begin(), r.end());
-    std::string s = "R";
-    for(auto& kv : r) s += " " + std::to_string(kv.first) + "=" + std::to_string(kv.second);
-    s += " || C";
-    tree.applyToAllCells([&](long level, auto&& h, auto&& m, auto&& l){
-        s += " " + std::to_string(level) + "/" + std::to_string(h.spaceIndex) + "=" + std::to_string(m ? m->get().val : 0UL) + "," + std::to_string(l ? l->get().val : 0UL);
-    });
-    return s;
-}
-
-// digests of the three kinds of state (particle results, multipoles, locals) for the write-set clauses of C12
-template <class Tree>
-std::string snapshot(Tree& tree){
-    unsigned long hr = 1469598103934665603UL, hm = hr, hl = hr;
-    tree.applyToAllLeaves([&](auto&& h, const long* idx, auto&&, auto&& rhs){
-        for(long p = 0 ; p < h.nbParticles ; ++p) hr += vw_mix((unsigned long)idx[p] * 31 + rhs[0][p]);
-    });
-    tree.applyToAllCells([&](long level, auto&& h, auto&& m, auto&& l){
-        if(m) hm += vw_mix((unsigned long)(level * 1000003 + h.spaceIndex) * 31 + m->get().val);
-        if(l) hl += vw_mix((unsigned long)(level * 1000003 + h.spaceIndex) * 31 + l->get().val);
-    });
-    return "r=" + std::to_string(hr) + " m=" + std::to_string(hm) + " l=" + std::to_string(hl);
-}
-
-static std::string join_trace(TraceSink& sink){
-    std::string s;
-    for(size_t k = 0 ; k < sink.lines.size() ; ++k){ if(k) s += " ; "; s += sink.lines[k]; }
-    return s;
-}
+#include "algo_common.hpp"
 
 template <long D, bool Per>
 std::string run_exec(const Cmd& c){
